@@ -10,7 +10,7 @@ from ..pool import guarded, run_cases
 
 THEOREMS = ["C01_default_in_prose", "C01_default_announced_once", "C01_default_stripped", "C01_quote_idempotent", "C01_example",
             "C01_rest_scan_lossless", "C01_rest_scan_splits_at_tokens", "C01_rest_emit_canonical", "C01_rest_parse_canonical",
-            "C01_rest_roundtrip", "C01_rest_roundtrip_return_only", "C01_rest_roundtrip_no_types", "C01_rest_emit_indented_canonical", "C01_rest_roundtrip_indented", "C01_rest_example", "C01_rest_tokens_are_the_sources", "C01_no_announcer_no_default", "C01_default_text_roundtrip", "C01_text_without_full_stop_is_kept", "C01_default_text_examples", "C01_announcers_are_the_sources"]
+            "C01_rest_roundtrip", "C01_rest_roundtrip_return_only", "C01_rest_roundtrip_no_types", "C01_rest_emit_indented_canonical", "C01_rest_roundtrip_indented", "C01_rest_example", "C01_rest_tokens_are_the_sources", "C01_no_announcer_no_default", "C01_default_text_roundtrip", "C01_text_without_full_stop_is_kept", "C01_default_text_examples", "C01_announcers_are_the_sources", "C01_rest_default_roundtrip", "C01_rest_default_example"]
 # no " of " / " or ": those make _set_name_and_type infer a type from the prose (parse_adhoc_doc_for_typ, C17's subject), outside Model/RestDoc.v
 REST_WORDS = ["the", "size", "within", "buffer", "in", "bytes", "name", "used", "for", "lookup", "how", "many", "items", "(optional)", "e.g.", "a-b",
               "x_y", "[units]", "100%", "fast;", "slow,", "path/to", "it's", '"quoted"', "param", "type", "return", "rtype", "3.5", "N/A", "é"]
